@@ -75,6 +75,16 @@ def check_determine(ctx, case):
                     else:  # a mixed spelling cannot be reproduced character by character: same letter and pitch
                         ctx.check(T.valid(back) and back[0] == b[0] and T.pc(back) == T.pc(b), "determine/short/inverse",
                                   lambda: "determine(%r, %r, True) -> %r, from_shorthand(%r, %r) -> %r" % (a, b, sh, a, sh, back))
+    # the same question with the notes (and the flag) given by keyword, in declaration order and the other way round
+    flag = form != "long"
+    base = ctx.ok("determine", intervals.determine, a, b, flag)
+    for how, call in (("note1=, note2=", lambda: intervals.determine(note1=a, note2=b, shorthand=flag)),
+                      ("note2=, note1=", lambda: intervals.determine(note2=b, note1=a, shorthand=flag)),
+                      ("shorthand=, note2=, note1=", lambda: intervals.determine(shorthand=flag, note2=b, note1=a)),
+                      ("positional + shorthand=", lambda: intervals.determine(a, b, shorthand=flag))):
+        rk = ctx.ok("determine/keyword-form", call)
+        ctx.check(failed(base) or failed(rk) or rk == base, "determine/keyword-form",
+                  lambda: "determine(%s) for (%r, %r, %r) -> %r, positional %r" % (how, a, b, flag, rk, base))
     unison = a[0] == b[0]
     labels = ["determine:" + form, "quality:" + quality, "number:" + number]
     ctx.note_case(off != 0 or (unison and abs(T.acc(b) - T.acc(a)) >= 2), labels)
